@@ -368,6 +368,9 @@ struct Rule {
     /// at least one of these must occur in the printed plan(s) (when non-empty)
     #[serde(default)]
     plan_any: Vec<String>,
+    /// all of these must occur together in ONE line of the printed plan(s)
+    #[serde(default)]
+    plan_line: Vec<String>,
 }
 
 /// Message-shape rules (`crates/vf-serde/signatures.json`): recorded findings recognised by the symptom in the
@@ -423,6 +426,7 @@ fn rule_signature(id: &str, msg: &str) -> Option<String> {
                 && (r.head_any.is_empty() || r.head_any.iter().any(|s| head.contains(s.as_str())))
                 && r.plan.iter().all(|s| plans.contains(s.as_str()))
                 && (r.plan_any.is_empty() || r.plan_any.iter().any(|s| plans.contains(s.as_str())))
+                && (r.plan_line.is_empty() || plans.lines().any(|l| r.plan_line.iter().all(|s| l.contains(s.as_str()))))
         })
         .map(|r| r.signature.clone())
 }
